@@ -10,7 +10,7 @@ Import ListNotations.
 Theorem consts_ok :
   (int_vs_str < 0 /\ 0 < str_vs_int)%Z /\
   (nm_requires_explicit = true /\ nm_excludes_this_branch = true) /\
-  (fake_not_built <> fake_not_merged /\ 0 < fake_iid_base)%Z /\ (0 <= obsolete_cutoff)%Z.
+  (fake_not_built <> fake_not_merged /\ 0 < fake_iid_base)%Z /\ (obsolete_cutoff = 30 * 86400 /\ 0 <= obsolete_cutoff)%Z.
 Proof. exact (conj consts_cmp (conj consts_nm (conj consts_fake consts_cutoff))). Qed.
 Print Assumptions consts_ok.
 
